@@ -140,8 +140,12 @@ impl Monitor for C01 {
                 let s0 = qu(v0) - (q0.assets() - q0.liabs() + q0.fees());
                 let s1 = qu(v1) - (q1.assets() - q1.liabs() + q1.fees());
                 let ds = &s1 - &s0;
-                let accrued = q0.asv != q1.asv || q0.lsv != q1.lsv;
                 let dt = s.clock.unix_timestamp - pre.last_update;
+                // an accrual ran if time had passed and the bank's clock moved, even when the
+                // per-period growth truncated to zero and only the fee buckets changed
+                let accrued = q0.asv != q1.asv
+                    || q0.lsv != q1.lsv
+                    || (dt > 0 && pre.last_update != post.last_update);
                 let sv = model::q_max(
                     model::q_max(q0.asv.clone(), q1.asv.clone()),
                     model::q_max(q0.lsv.clone(), q1.lsv.clone()),
